@@ -214,6 +214,13 @@ func (a *Activation) enterLoop(st *State, li *loopInfo) {
 				}
 				continue
 			}
+			if strings.HasPrefix(s, "$ghost:") {
+				k := strings.TrimPrefix(s, "$ghost:")
+				if old, ok := st.ghosts[k]; ok {
+					st.ghosts[k] = g.fresh("ghl", old.Sort)
+				}
+				continue
+			}
 			g.havocHeap(st, s)
 		}
 	}
@@ -475,7 +482,11 @@ func (a *Activation) modCall(cc *ssa.CallCommon, cm map[cellKey]bool, hm map[str
 	}
 	if spec != nil && !spec.Inline && (len(spec.Ensures) > 0 || len(spec.Requires) > 0 || spec.HasMod || len(spec.Ghost) > 0) {
 		if spec.HasMod && !spec.ModAll {
-			if !spec.Tags["ghost-pure"] {
+			if gk, explicit := g.eng.specs.ghostFrame(spec); explicit {
+				for k := range gk {
+					hm["$ghost:"+k] = true
+				}
+			} else {
 				hm["$ghosts"] = true // ghost variables may change
 			}
 			for _, cl := range spec.Ensures {
@@ -829,7 +840,7 @@ func (a *Activation) applyContract(st, pre *State, spec *FuncSpec, pkg *packages
 			savedGhosts[k] = v
 		}
 		g.havocAllHeaps(st)
-		if len(spec.Ghost) > 0 || spec.Tags["ghost-pure"] {
+		if _, explicit := g.eng.specs.ghostFrame(spec); explicit {
 			// the ghost effect of this callee is stated explicitly (below)
 			for k, v := range savedGhosts {
 				st.ghosts[k] = v
@@ -886,10 +897,18 @@ func (a *Activation) applyContract(st, pre *State, spec *FuncSpec, pkg *packages
 	// ghost effects: a contract with explicit `ghost v = e` clauses changes exactly those
 	// ghost variables; one tagged ghost-pure changes none; any other callee may change
 	// every ghost variable (its ensures clauses relate old and new values)
-	if len(spec.Ghost) == 0 && !spec.Tags["ghost-pure"] {
+	if frame, explicit := g.eng.specs.ghostFrame(spec); !explicit || len(spec.GhostMod) > 0 {
+		assigned := map[string]bool{} // targets of ghost clauses get their value below
+		for _, gu := range spec.Ghost {
+			if gv := g.eng.specs.findGhost(pkg.PkgPath, gu.Var); gv != nil {
+				assigned[gv.PkgPath+"::"+gv.Name] = true
+			}
+		}
 		var gk []string
 		for k := range st.ghosts {
-			gk = append(gk, k)
+			if (!explicit || frame[k]) && !assigned[k] {
+				gk = append(gk, k)
+			}
 		}
 		sort.Strings(gk)
 		for _, k := range gk {
@@ -916,6 +935,9 @@ func (a *Activation) applyContract(st, pre *State, spec *FuncSpec, pkg *packages
 	}
 	// postconditions
 	for _, cl := range spec.Ensures {
+		if cl.Local {
+			continue // exit clause: about the body's locals, not part of the callers' view
+		}
 		c := mk(st, "ensures "+cl.Label)
 		t := c.boolOf(c.eval(cl.E))
 		if c.err != nil {
